@@ -268,6 +268,7 @@ class Weaver:
         self.transforms = []
         self.lost = []
         self.soft_lost = []   # site anchors that no longer match: the site clause is dropped, the run continues
+        self.unclaimed_sites = []   # emission sites no overlay clause guards
         self.fn_info = []     # filled by weave_file: dicts per function
         self.demote = set(demote)   # (file, qual) forced to external_body
         self.overlays = {}
@@ -668,12 +669,14 @@ class Weaver:
                 if not code(m.start()): continue
                 ls = s.rfind('\n', 0, m.start()) + 1
                 if ls in claimed: continue
-                if any(a < m.start() < b for a, b in verified_spans):
-                    claimed.add(ls)
-                    edits.append((ls, ls, ins(f"{ov['path']}:unexpected-emission-site[{needle}]@{s.count(chr(10), 0, ls) + 1}", sprops or ov['props'],
-                                              'assert(false); // unexpected-emission-site\n')))
-                else:
-                    self.lost.append(f"{rel}: site \"{needle}\" at line {s.count(chr(10), 0, ls) + 1} is outside every verified function")
+                # an emission site (event push, state assignment, socket send, callback call ...) that no overlay clause
+                # guards: reported directly as a failed obligation of the site's properties (no code is inserted, so a site
+                # written inside a one-line match arm cannot make the woven file unparsable)
+                ln = s.count(chr(10), 0, ls) + 1
+                claimed.add(ls)
+                self.unclaimed_sites.append({'file': rel, 'line': ln, 'needle': needle, 'props': sprops or ov['props'],
+                                             'text': s[ls:s.find(chr(10), ls)].strip()[:160],
+                                             'inside_verified_fn': any(a < m.start() < b for a, b in verified_spans)})
 
         # nested modules
         for m in re.finditer(r'(?m)^([ \t]*)(pub(?:\s*\([a-z]+\))?\s+)?mod\s+([a-z_0-9]+)\s*;', s):
